@@ -136,9 +136,13 @@ Variables (St F : Type) (sweep : nat -> St -> St) (fit_mttkrp fit_innerprod : St
 Local Notation RUN := (cpals_run sweep fit_mttkrp fit_innerprod fchange_lt fit0 arrange fixsigns).
 
 (* iteration count within the limit; one fit per executed iteration *)
-Theorem C09_bookkeeping_iters : forall tol p s0 m dofix (r : result St F),
+Theorem C09_bookkeeping_iters : forall tol p s0 m dofix (r : result St F), 0 < m ->
   RUN tol p s0 m dofix = Some r -> r_iters r < m /\ length (r_trace r) = S (r_iters r).
 Proof. exact (@cpals_iters_bound St F sweep fit_mttkrp fit_innerprod fchange_lt fit0 arrange fixsigns). Qed.
+(* ... every admissible limit, maxiters = 0 included: iters <= maxiters - 1 (0 when nothing ran), min(maxiters, iters+1) fits computed *)
+Theorem C09_bookkeeping_iters_all : forall tol p s0 m dofix (r : result St F),
+  RUN tol p s0 m dofix = Some r -> r_iters r <= m - 1 /\ length (r_trace r) = Nat.min m (S (r_iters r)).
+Proof. exact (@cpals_iters_bound_all St F sweep fit_mttkrp fit_innerprod fchange_lt fit0 arrange fixsigns). Qed.
 
 (* stop rule: early exit only at an iteration k >= 1 whose fit change is below stoptol, and never past such an iteration *)
 Theorem C09_bookkeeping_stop : forall tol p s0 m dofix (r : result St F),
@@ -150,16 +154,24 @@ Proof. exact (@cpals_stop_rule St F sweep fit_mttkrp fit_innerprod fchange_lt fi
 
 (* the returned model is arrange/fixsigns of the state after exactly iters+1 sweeps FROM THE GIVEN START s0 (the guess that is
    returned is the one used), and the trace lists the fits of those sweeps *)
-Theorem C09_bookkeeping_state : forall tol p s0 m dofix (r : result St F),
+Theorem C09_bookkeeping_state : forall tol p s0 m dofix (r : result St F), 0 < m ->
   RUN tol p s0 m dofix = Some r ->
   (forall k, k <= r_iters r -> nth_error (r_trace r) k = Some (snd (fit_mttkrp (iter_sweep sweep (S k) s0)))) /\
   r_state r = cpals_finish arrange fixsigns dofix (iter_sweep sweep (S (r_iters r)) s0).
 Proof. exact (@cpals_trace_sweeps St F sweep fit_mttkrp fit_innerprod fchange_lt fit0 arrange fixsigns). Qed.
+(* ... every limit, 0 included: the model is arrange/fixsigns of the state after as many sweeps from s0 as fits were computed *)
+Theorem C09_bookkeeping_state_all : forall tol p s0 m dofix (r : result St F),
+  RUN tol p s0 m dofix = Some r ->
+  r_state r = cpals_finish arrange fixsigns dofix (iter_sweep sweep (length (r_trace r)) s0) /\
+  (forall k, k < length (r_trace r) -> nth_error (r_trace r) k = Some (fit_at sweep fit_mttkrp s0 k)).
+Proof. exact (@cpals_state_all St F sweep fit_mttkrp fit_innerprod fchange_lt fit0 arrange fixsigns). Qed.
 
-(* what is reported: the in-loop formula when silent, the innerprod formula on the final model when printing *)
+(* what is reported: the in-loop formula when silent (the innerprod formula on the start when no sweep ran), the innerprod
+   formula on the final model when printing *)
 Theorem C09_bookkeeping_report : forall tol p s0 m dofix (r : result St F),
   RUN tol p s0 m dofix = Some r ->
-  (p = 0 -> (r_normres r, r_fit r) = fit_mttkrp (iter_sweep sweep (S (r_iters r)) s0)) /\
+  (p = 0 -> 0 < m -> (r_normres r, r_fit r) = fit_mttkrp (iter_sweep sweep (S (r_iters r)) s0)) /\
+  (p = 0 -> m = 0 -> (r_normres r, r_fit r) = fit_innerprod s0) /\
   (p > 0 -> (r_normres r, r_fit r) = fit_innerprod (r_state r)).
 Proof. exact (@cpals_report_consistent St F sweep fit_mttkrp fit_innerprod fchange_lt fit0 arrange fixsigns). Qed.
 
@@ -169,18 +181,18 @@ Theorem C09_bookkeeping_truncation : forall tol p1 p2 d1 d2 s0 m1 m2 (r1 r2 : re
   r_trace r1 = firstn m1 (r_trace r2) /\ r_iters r1 = Nat.min (r_iters r2) (m1 - 1).
 Proof. exact (@cpals_truncation St F sweep fit_mttkrp fit_innerprod fchange_lt fit0 arrange fixsigns). Qed.
 
-(* A-30: the faithful model crashes exactly when maxiters = 0 (UnboundLocalError in pyttb); the repaired behaviour is total and
-   coincides with the code whenever maxiters > 0 *)
-Theorem C09_maxiters0_crash : forall tol p s0 m dofix, RUN tol p s0 m dofix = None <-> m = 0.
-Proof. exact (@cpals_crash_iff St F sweep fit_mttkrp fit_innerprod fchange_lt fit0 arrange fixsigns). Qed.
-Theorem C09_repaired_total : forall tol p s0 m dofix,
-  (exists r, cpals_run_spec sweep fit_mttkrp fit_innerprod fchange_lt fit0 arrange fixsigns tol p s0 m dofix = Some r) /\
-  (m > 0 -> cpals_run_spec sweep fit_mttkrp fit_innerprod fchange_lt fit0 arrange fixsigns tol p s0 m dofix = RUN tol p s0 m dofix).
-Proof.
-  intros tol p s0 m dofix.
-  exact (conj (@cpals_run_spec_total St F sweep fit_mttkrp fit_innerprod fchange_lt fit0 arrange fixsigns tol p s0 m dofix)
-              (@cpals_run_spec_eq St F sweep fit_mttkrp fit_innerprod fchange_lt fit0 arrange fixsigns tol p s0 m dofix)).
-Qed.
+(* maxiters = 0 (A-30, repaired in /repo: the loop model follows the repaired source): no sweep is executed, the start model is
+   arranged / sign-fixed and reported with iters = 0; silent runs evaluate the innerprod formula on the start itself, printing
+   runs on the arranged model.  With that block the run is TOTAL: every admissible limit yields a result *)
+Theorem C09_maxiters0 : forall tol p s0 dofix,
+  RUN tol p s0 0 dofix
+  = let fin := cpals_finish arrange fixsigns dofix s0 in
+    Some (if 0 <? p
+          then mkResult fin 0 (fst (fit_innerprod fin)) (snd (fit_innerprod fin)) [EvHeader; EvFinal (snd (fit_innerprod fin))] []
+          else mkResult fin 0 (fst (fit_innerprod s0)) (snd (fit_innerprod s0)) [] []).
+Proof. exact (@cpals_run_zero St F sweep fit_mttkrp fit_innerprod fchange_lt fit0 arrange fixsigns). Qed.
+Theorem C09_run_total : forall tol p s0 m dofix, exists r, RUN tol p s0 m dofix = Some r.
+Proof. exact (@cpals_run_total St F sweep fit_mttkrp fit_innerprod fchange_lt fit0 arrange fixsigns). Qed.
 End C09book.
 
 Print Assumptions C09_fit_identity.
@@ -197,8 +209,10 @@ Print Assumptions C09_bookkeeping_stop.
 Print Assumptions C09_bookkeeping_state.
 Print Assumptions C09_bookkeeping_report.
 Print Assumptions C09_bookkeeping_truncation.
-Print Assumptions C09_maxiters0_crash.
-Print Assumptions C09_repaired_total.
+Print Assumptions C09_maxiters0.
+Print Assumptions C09_run_total.
+Print Assumptions C09_bookkeeping_iters_all.
+Print Assumptions C09_bookkeeping_state_all.
 
 (* non-vacuity: a concrete non-symmetric 3x2 rank-2 instance over Z, mode 1 *)
 Example C09_fit_identity_example :
